@@ -38,4 +38,17 @@ PROPS = {
                            "C11_gate_post_subscription": "proved", "C11_gate_accepts_allowed": "proved",
                            "C11_gate_arbitrary_refuted": "refuted (witness: leading comment) - open finding C11/gate-textual-prefix-bypass"},
     },
+    "C12": {
+        "coq": ["Properties/C12.v", "Corr/C12corr.v"],
+        "trusted": [
+            "encoding/json decides whether the envelope (first JSON value of a 200 body / whole non-200 body) decodes into graphql.Response and how many errors it lists; that verdict is an INPUT of the model (computed by the harness with encoding/json on the same bytes)",
+            "io.ReadAll and json.Decoder stream semantics: ReadAll fails on any read fault; Decoder.Decode succeeds iff the first value is complete in the bytes delivered before the fault (validated by every-k fault sweeps)",
+            "net/http request construction; the Doer is a stub",
+        ],
+        "assumptions": ["the generated helper's part of C12 (non-nil response struct, also when the client getter fails) is checked by the helper engine when built; known finding D8 is recorded there"],
+        "level_text": "Theorems over every (Do result, status, body verdicts, fault position): the model's outcome satisfies the documented classification, the classification is exclusive (exactly one outcome), the body is closed exactly once iff a response was obtained and Close is the last event, data is decoded whenever the outcome is nil or a gqlerror list, non-200 carries the status. Tied to client.go by running the real POST/GET clients on ~3000 (status, body, fault-plan) cases per run incl. exhaustive fault-position and status sweeps, compared in-kernel with the model, plus an independent Go oracle on messages/data/extensions/close counts.",
+        "level_note": "Trusted: Coq kernel; the model is a decision procedure over abstract body verdicts supplied by encoding/json (third party); correspondence is differential testing with instrumented bodies.",
+        "theorem_status": {"C12_exactly_one": "proved", "C12_classified": "proved", "C12_closed": "proved",
+                           "C12_partial_data_kept": "proved", "C12_status_carried": "proved"},
+    },
 }
